@@ -1007,6 +1007,8 @@ def part2(ctx, wrapper_cases):
     jobs = []
     for bi, b in enumerate(batches):
         for api in APIS:
+            if api.endswith("_fb"):
+                continue    # the ONNX C API refuses models holding float8/int4/... tensors at these opsets; the pass is then a documented no-op
             pop = ["init_doc", "init_meta"] if bi % 3 == 2 else ["init_doc"]
             jobs.append((api, pop, b))
     zo = core.pmap(run_zoo_case, jobs, chunksize=1)
@@ -1036,7 +1038,7 @@ def run(ctx: core.Ctx):
     npay = part2(ctx, cases)
     ctx.set("distinct_nontrivial", len(nontriv) + npay)
     ctx.set("exhaustive", not ctx.quick)
-    ctx.set("rule", "part 1: cases = finished behaviours of ProtoIR.tla = api (11 entry points/argument forms) x switch set (17 populated carriers + 9 "
+    ctx.set("rule", "part 1: cases = finished behaviours of ProtoIR.tla = api (13 entry points/argument forms, incl. convert_version(fallback=True) on two paths that take the ONNX C API) x switch set (17 populated carriers + 9 "
                     "structural features of the host graph (incl. differently named symbolic dims joined by Identity, and constant Ifs whose "
                     "branches own a shadowing initializer); all sets with <=2 (quick) / <=3 (thorough) switches on and all with <=1 / <=2 off: "
                     "pairwise / 3-wise complete); each is built as a real ModelProto and run through the proto entry point, the IR entry point and "
